@@ -70,6 +70,12 @@ type Prop struct {
 	ColdProbes int
 	// StallClass: shorter limits (seconds) for classes whose cases are known to take microseconds.
 	StallClass map[string]int
+	// RaceClasses: when the property lists the build "race", only cases of these classes are judged in that
+	// build (the classes in which several goroutines are inside the library at once), and of those only every
+	// RaceSample-th (0 = all). The race detector then watches the library's own shared state — lazily built
+	// tables, caches, pools — during those executions. Empty: the race build judges everything (C13).
+	RaceClasses []string
+	RaceSample  int
 	// OwnProcs: the property sets runtime.GOMAXPROCS itself (C13); otherwise every second shard process runs
 	// with a GOMAXPROCS value from ProcsOf (1, 2, 3, 5, 7, 48, 64, 128), because library code may size its
 	// work by runtime.GOMAXPROCS / NumCPU and a deployment may set any value.
@@ -205,6 +211,7 @@ type Gen struct {
 	emitted  int64       // index of the next case (generation order)
 	limit    int64       // cold-start probes: stop generating after this many cases behind `from`
 	from     int64       // cases with a smaller index are generated but not judged (restart behind a stalled case)
+	raceSeen int64       // race build with RaceClasses: cases of the listed classes generated so far
 }
 
 type caseItem struct {
@@ -267,6 +274,19 @@ func (g *Gen) Bytes(n int) []byte {
 
 // Emit judges one case (or hands it to the judging goroutines in parallel mode).
 func (g *Gen) Emit(class string, key []byte) {
+	if g.Build == "race" && g.prop != nil && len(g.prop.RaceClasses) > 0 {
+		keep := false
+		for _, c := range g.prop.RaceClasses {
+			keep = keep || c == class
+		}
+		if !keep {
+			return
+		}
+		g.raceSeen++
+		if n := int64(g.prop.RaceSample); n > 1 && g.raceSeen%n != 0 {
+			return
+		}
+	}
 	idx := g.emitted
 	g.emitted++
 	if idx < g.from {
